@@ -533,6 +533,9 @@ func (e *Exec) load(st *State, p *Ptr) string {
 	if p.Local != nil {
 		return e.project(fmt.Sprintf("(select %s %s)", st.larr[p.Local].Term, p.Idx), p.Root, p.Path)
 	}
+	if arr, ok := p.Root.Underlying().(*types.Array); ok && !p.Elem && len(p.Path) == 0 { // whole array object: a row of the slice heap
+		return fmt.Sprintf("(select %s %s)", e.heapSym(st, e.sorts.HeapSlice(e.sorts.SortOf(arr.Elem()))), p.Ref)
+	}
 	rs := e.sorts.SortOf(p.Root)
 	var cell string
 	if p.Elem {
@@ -564,6 +567,14 @@ func (e *Exec) store(st *State, p *Ptr, v string) {
 		}
 		old := fmt.Sprintf("(select %s %s)", la.Term, p.Idx)
 		la.Term = fmt.Sprintf("(store %s %s %s)", la.Term, p.Idx, e.update(old, p.Root, p.Path, v))
+		return
+	}
+	if arr, ok := p.Root.Underlying().(*types.Array); ok && !p.Elem && len(p.Path) == 0 { // whole array object
+		hn := e.sorts.HeapSlice(e.sorts.SortOf(arr.Elem()))
+		h := e.heapSym(st, hn)
+		nh := e.fresh(hn, e.sorts.heaps[hn])
+		st.assume = append(st.assume, fmt.Sprintf("(= %s (store %s %s %s))", nh, h, p.Ref, v))
+		st.heap[hn] = nh
 		return
 	}
 	rs := e.sorts.SortOf(p.Root)
@@ -1284,7 +1295,7 @@ func (e *Exec) instr(st *State, b *ssa.BasicBlock, ins ssa.Instruction) (stop bo
 		}
 		st.vals[x] = fmt.Sprintf("(mkslice %s 0 %d %d)", e.val(st, x.X), n, n)
 	case *ssa.Convert:
-		key := "convert:" + x.Type().String() + "<-" + x.X.Type().String()
+		key := "convert:" + convTypeName(x.Type()) + "<-" + convTypeName(x.X.Type())
 		if e.cs != nil {
 			if fc, ok := e.cs.Funcs[key]; ok {
 				st.vals[x] = e.applySimple(st, fc, []string{e.val(st, x.X)}, []types.Type{x.X.Type()}, x.Type())
@@ -2490,4 +2501,15 @@ func smtToGo(t string) string {
 		b.WriteByte(body[i])
 	}
 	return strconv.Quote(b.String())
+}
+
+// convTypeName: conversions are keyed by underlying basic types (a named string type converts like string).
+func convTypeName(t types.Type) string {
+	switch u := t.Underlying().(type) {
+	case *types.Basic:
+		return u.Name()
+	case *types.Slice:
+		return "[]" + convTypeName(u.Elem())
+	}
+	return t.String()
 }
